@@ -26,7 +26,9 @@
    Header hashes of blocks that ARE on the chain are abbreviated "HH<h>" (hash-consing,
    keeps terms short); every other header hashes to its full term.
 
-   The spec models the code AS REPAIRED by /verif/proposed-fixes/C20-light-rpc-binding.diff
+   The spec models the code AS REPAIRED by /verif/proposed-fixes/C20-latest-when-up-to-date.diff
+   (height = nil when the light client is already at the primary's latest height) and by
+   /verif/proposed-fixes/C20-light-rpc-binding.diff
    (BlockResults preimage + height, Tx bound to its proof, complete BlockID and LastCommit
    binding in Block/BlockByHash/BlockchainInfo, key path for absence proofs); the behaviour of
    the unrepaired v0.34.24 code is kept as Weak_* switches (marked "(v0.34.24)").
@@ -56,6 +58,11 @@ CONSTANTS
   Weak_BackwardsTargetNotRechecked, \* light/client.go backwards(): after a lying primary was replaced in the middle of a backwards
                                \*   verification, the new primary's block for the TARGET height is not compared with the header the
                                \*   caller fetched first (and is about to store)
+  Weak_LatestPanicsWhenUpToDate, \* (v0.34.24..88ebf12) light/rpc updateLightClientIfNeededTo(nil): light.Client.Update returns (nil, nil)
+                               \*   when the primary has nothing newer than the latest trusted block; Commit(nil)/Validators(nil)
+                               \*   dereference the nil light block and panic
+  Weak_LatestUnverifiedWhenUpToDate, \* light.Client.Update hands out the primary's latest block UNVERIFIED when it is not newer
+                               \*   than the latest trusted block
   Weak_BackwardsCommitUnverified, \* (before 88ebf12) light/client.go verifyLightBlock: a block verified BACKWARDS is stored without
                                \*   ValidateBasic / VerifyCommitLight of its commit against its own validator set
   CommitBlockIDValidated,      \* NOT a weakening -- which of two acceptable behaviours the tree has: FALSE (v0.34.24..88ebf12):
@@ -284,7 +291,11 @@ HonestInfo(C, lo, hi) == [last_height |-> C.tip, metas |-> Force([i \in 1..(hi -
 \* what the light client's primary serves for height h (light/provider)
 HonestLightBlock(C, h) == LET b == C.blocks[h] IN [header |-> b.header, commit |-> b.commit, vals |-> b.vals]
 
-Honest(C, k, a) ==
+\* a.h = 0 stands for height = nil, "the latest": the tip for Block / Commit / Validators, tip - 1 for
+\* BlockResults (light/rpc Client.BlockResults asks Status and takes LatestBlockHeight - 1)
+ReqH(C, k, a) == IF a.h # 0 THEN a.h ELSE IF k = "BlockResults" THEN C.tip - 1 ELSE C.tip
+Honest(C, k, a0) ==
+  LET a == [a0 EXCEPT !.h = IF k \in {"Block", "BlockResults", "Commit", "Validators"} THEN ReqH(C, k, a0) ELSE a0.h] IN
   CASE k = "Block"           -> HonestBlock(C, a.h)
     [] k = "BlockByHash"     -> HonestBlock(C, a.h)
     [] k = "Tx"              -> HonestTx(C, a.h, a.i)
@@ -300,25 +311,28 @@ Min(x, y) == IF x < y THEN x ELSE y
 PageOK(a, total) == LET pages == IF total = 0 THEN 1 ELSE ((total - 1) \div PerPage(a.per)) + 1 IN a.page = 0 \/ a.page \in 1..pages
 \* a request an honest node can answer AND whose proving header exists on the (static) chain
 ValidArg(C, k, a) ==
-  CASE k \in {"Block", "BlockByHash", "ConsensusParams", "Commit"} -> a.h \in 1..C.tip
+  CASE k \in {"Block", "Commit"} -> a.h \in 0..C.tip
+    [] k \in {"BlockByHash", "ConsensusParams"} -> a.h \in 1..C.tip
     [] k = "Tx"             -> a.h \in 1..C.tip /\ a.i >= 0 /\ a.i < Len(C.blocks[a.h].txs)
-    [] k = "BlockResults"   -> a.h \in 1..(C.tip - 1)
+    [] k = "BlockResults"   -> a.h \in 0..(C.tip - 1)
     [] k = "ABCIQuery"      -> a.h \in 1..(C.tip - 1) /\ \E i \in 1..Len(C.blocks[a.h].kv) : C.blocks[a.h].kv[i].store = a.store
     [] k = "BlockchainInfo" -> a.lo >= 1 /\ a.lo <= a.hi /\ a.hi <= C.tip /\ a.hi - a.lo <= 2
-    [] k = "Validators"     -> a.h \in 1..C.tip /\ PageOK(a, Len(C.blocks[a.h].vals))
+    [] k = "Validators"     -> a.h \in 0..C.tip /\ PageOK(a, Len(C.blocks[ReqH(C, k, a)].vals))
 \* honest requests whose proving header exists on the (static) chain
 HonestArgs(C, k) ==
   LET H == 1..C.tip
       lcs == {"fresh", "warm", "top"}
-  IN CASE k \in {"Block", "BlockByHash", "ConsensusParams", "Commit"} -> {Arg(h, 0, "", "", 0, 0, 0, 0, lc) : h \in H, lc \in lcs}
+  IN CASE k \in {"Block", "Commit"} -> {Arg(h, 0, "", "", 0, 0, 0, 0, lc) : h \in H \cup {0}, lc \in lcs}
+       [] k \in {"BlockByHash", "ConsensusParams"} -> {Arg(h, 0, "", "", 0, 0, 0, 0, lc) : h \in H, lc \in lcs}
        [] k = "Tx" -> UNION {{Arg(h, i - 1, "", "", 0, 0, 0, 0, lc) : i \in 1..Len(C.blocks[h].txs), lc \in lcs} : h \in H}
-       [] k = "BlockResults" -> {Arg(h, 0, "", "", 0, 0, 0, 0, lc) : h \in 1..(C.tip - 1), lc \in lcs}
+       [] k = "BlockResults" -> {Arg(h, 0, "", "", 0, 0, 0, 0, lc) : h \in 0..(C.tip - 1), lc \in lcs}
        [] k = "ABCIQuery" -> UNION {UNION {{Arg(h, 0, st.store, key, 0, 0, 0, 0, lc) :
                                              key \in {st.kvs[j].k : j \in 1..Len(st.kvs)} \cup {"k9"}, lc \in lcs} :
                                            st \in {C.blocks[h].kv[i] : i \in 1..Len(C.blocks[h].kv)}} : h \in 1..(C.tip - 1)}
        [] k = "BlockchainInfo" -> {Arg(0, 0, "", "", p[1], p[2], 0, 0, lc) : p \in {q \in H \X H : q[1] <= q[2] /\ q[2] - q[1] <= 2}, lc \in lcs}
        [] k = "Validators" -> {x \in {Arg(h, 0, "", "", 0, 0, pg[1], pg[2], lc) : h \in H, lc \in lcs, pg \in {<<0, 0>>, <<1, 2>>, <<2, 3>>, <<2, 2>>}} :
                                  PageOK(x, Len(C.blocks[x.h].vals))}
+                              \cup {Arg(0, 0, "", "", 0, 0, 0, 0, lc) : lc \in lcs}
 
 
 \* ------------------------------------------------------------------ (3b) falsification
@@ -607,8 +621,23 @@ LCHonest(C, have, h) == IF h \in 1..C.tip THEN LCGet(C, have, h, HonestLightBloc
 Have(C, a) == IF a.lc = "warm" THEN 1..C.tip ELSE IF a.lc = "top" THEN {C.tip} ELSE {1}
 \* the block for a.h was (or would be) obtained by backwards verification
 Backwards(C, a) == a.h >= 1 /\ a.h < MinOf(Have(C, a))
+MaxOf(S) == CHOOSE t \in S : \A u \in S : u <= t
+\* height = nil: light/rpc updateLightClientIfNeededTo(nil) -> light.Client.Update: fetch the primary's
+\* LATEST block (request for height 0: the provider checks ValidateBasic but no height); when it is
+\* above the latest trusted height it is verified like any other block and returned; otherwise
+\* Update returns (nil, nil) and -- [repair C20-latest-when-up-to-date] -- the latest TRUSTED block is used.
+LatestGet(C, have, sent) ==
+  LET lb   == IF ~LightBlockBasic(C, sent) THEN HonestLightBlock(C, C.tip) ELSE sent
+      hh   == lb.header.height
+      last == MaxOf(have)
+  IN IF hh > last
+     THEN IF hh > C.tip THEN [st |-> "lc:height", lb |-> lb] ELSE [st |-> LCVerify(C, have, hh, lb), lb |-> lb]
+     ELSE IF Weak_LatestUnverifiedWhenUpToDate THEN [st |-> "ok", lb |-> lb]
+     ELSE IF Weak_LatestPanicsWhenUpToDate THEN [st |-> "lc:panic", lb |-> lb]
+     ELSE [st |-> "ok", lb |-> HonestLightBlock(C, last)]
+LCGetA(C, a, sent) == IF a.h = 0 THEN LatestGet(C, Have(C, a), sent) ELSE LCGet(C, Have(C, a), a.h, sent, a.pp)
 \* what actually reaches the client: the primary is not even asked for a height already trusted
-EffSent(C, k, a, f) == IF k \in ProviderKinds /\ a.h \in Have(C, a) THEN Honest(C, k, a) ELSE Falsify(C, k, a, f)
+EffSent(C, k, a, f) == IF k \in ProviderKinds /\ a.h # 0 /\ a.h \in Have(C, a) THEN Honest(C, k, a) ELSE Falsify(C, k, a, f)
 
 \* ------------------------------------------------------------------ (3d) Relay: light/rpc/client.go, check by check
 OK      == [ok |-> TRUE, err |-> "none"]
@@ -703,7 +732,7 @@ RelayInfo(C, a, r) ==      \* Client.BlockchainInfo
        ELSE CheckMetas(C, Have(C, a) \cup {low}, r.metas, 1)
 
 \* Client.Commit / Client.Validators: answered from the light block itself
-RelayLight(C, a, sent) == LET l == LCGet(C, Have(C, a), a.h, sent, a.pp) IN
+RelayLight(C, a, sent) == LET l == LCGetA(C, a, sent) IN
   IF l.st = "ok" THEN OK ELSE IF l.st = "lc:panic" THEN Rej("panic") ELSE Rej("lc")
 \* what the client hands to the caller for the provider kinds
 ShapeCommit(lb) == [header |-> lb.header, commit |-> lb.commit, canonical |-> TRUE]
@@ -714,7 +743,8 @@ ShapeValidators(a, lb) ==
       cnt   == Min(per, total - skip)
   IN [height |-> lb.header.height, validators |-> SubSeq(lb.vals, skip + 1, skip + cnt), count |-> cnt, total |-> total]
 
-Relay(C, k, a, r) ==
+Relay(C, k, a0, r) ==
+  LET a == IF k \in {"Block", "BlockResults"} THEN [a0 EXCEPT !.h = ReqH(C, k, a0)] ELSE a0 IN
   CASE k \in {"Block", "BlockByHash"} -> RelayBlock(C, a, r)
     [] k = "Tx"              -> RelayTx(C, a, r)
     [] k = "ABCIQuery"       -> RelayQuery(C, a, r)
@@ -723,11 +753,11 @@ Relay(C, k, a, r) ==
     [] k = "BlockchainInfo"  -> RelayInfo(C, a, r)
     [] k = "Commit"          -> RelayLight(C, a, r)
     [] k = "Validators"      -> LET x == RelayLight(C, a, r) IN      \* paging over the validator set actually held
-                                IF x.ok /\ ~PageOK(a, Len(LCGet(C, Have(C, a), a.h, r, a.pp).lb.vals)) THEN Rej("basic") ELSE x
+                                IF x.ok /\ ~PageOK(a, Len(LCGetA(C, a, r).lb.vals)) THEN Rej("basic") ELSE x
 \* the value handed to the caller when relayed
 Returned(C, k, a, r) ==
-  CASE k = "Commit"     -> ShapeCommit(LCGet(C, Have(C, a), a.h, r, a.pp).lb)
-    [] k = "Validators" -> ShapeValidators(a, LCGet(C, Have(C, a), a.h, r, a.pp).lb)
+  CASE k = "Commit"     -> ShapeCommit(LCGetA(C, a, r).lb)
+    [] k = "Validators" -> ShapeValidators(a, LCGetA(C, a, r).lb)
     [] OTHER            -> r
 
 \* ------------------------------------------------------------------ (3e) Consistent: the statement, per kind
